@@ -29,7 +29,7 @@ def eols(n):
     return st.lists(st.sampled_from(EOLS), min_size=n, max_size=n)
 
 
-def base_ns(draw=None, probes=0):
+def base_ns(draw=None, probes=0, hooks=False):
     """The namespace schema as a spec."""
     obj = dict(t='obj', attrs=dict(va='⟦OA.va⟧', xo='⟦OA.xo⟧', _pv='⟦PRIV⟧',
                                    fo=dict(t='rec', id='oa.fo',
@@ -74,6 +74,36 @@ def base_ns(draw=None, probes=0):
         dict(k='text', s='(tx'),
         dict(k='var', ref=dict(r='name', n='fr'), opts=[]),
         dict(k='text', s='never)')])
+    if hooks:
+        def hitem(i):
+            return dict(t='hobj', id='hs%d' % i, attrs=dict(
+                va='⟦HS.%d.va⟧' % i, xi=i, xn=i * 2 + 1,
+                hk=dict(t='hval', id='hk%d' % i, key=(i * 7) % 3,
+                        text='k%d' % i)))
+        ns.update(
+            ho=dict(t='hobj', id='ho', attrs=dict(
+                va='⟦HO.va⟧', xo='⟦HO.xo⟧',
+                fo=dict(t='rec', id='ho.fo', ret='⟦HO.fo⟧'))),
+            hs=dict(t='hseq', id='hs', items=[hitem(i) for i in range(3)]),
+            hi=dict(t='hiter', id='hi', items=[hitem(7), hitem(8)]),
+            hm=dict(t='hmap', id='hm', items=dict(va='⟦HM.va⟧',
+                                                  xm='⟦HM.xm⟧')),
+            hl=dict(t='list', items=[
+                dict(t='hmap', id='hl%d' % i, items=dict(va='⟦HL%d⟧' % i,
+                                                         xi=i))
+                for i in range(2)]),
+            hv=dict(t='hval', id='hv', truth=True, text='⟦HV⟧'),
+            hf=dict(t='hval', id='hf', truth=False, text='⟦HF⟧'),
+            tq=dict(t='tree', id='r', children=[
+                dict(t='tree', id='a', children=[
+                    dict(t='tree', id='a1'), dict(t='tree', id='a2')]),
+                dict(t='tree', id='b', children=[dict(t='tree', id='b1')])]),
+            tn=dict(t='tmpl', defaults=dict(tnd='⟦TN⟧'), ast=[
+                dict(k='text', s='(tn'),
+                dict(k='var', ref=dict(r='name', n='ta'), opts=[]),
+                dict(k='var', ref=dict(r='name', n='fa'), opts=[]),
+                dict(k='text', s=')')]),
+            URL='http://host/root/obj', RESPONSE=dict(t='response'))
     for i in range(probes):
         ns['p%d' % i] = dict(t='probe', id=i)
     return ns
@@ -333,8 +363,78 @@ def node_of(cfg, k, depth, scope):
             dict(k='call', ref=dict(r='name', n='fr')),
             dict(k='var', ref=dict(r='expr', e=E('name', n='cu')), opts=[]),
         ])
+    if k == 'hook':
+        def vn(n, *opts):
+            return dict(k='var', ref=dict(r='name', n=n),
+                        opts=[list(o) for o in opts])
+        inner = body(cfg, d, scope + ('va', 'xi'))
+        menu = [
+            st.just(vn('hv')), st.just(vn('hv', ('fmt', 'shout'))),
+            st.just(vn('hv', ('url', None))),
+            st.just(vn('hv', ('upper', None), ('size', '1'))),
+            st.builds(lambda b: dict(k='if', conds=[dict(r='name', n='hv')],
+                                     bodies=[b], **{'else': None}), inner),
+            st.builds(lambda b: dict(k='if', conds=[dict(r='name', n='hf'),
+                                                    dict(r='name', n='hv')],
+                                     bodies=[[], b], **{'else': b}), inner),
+            st.builds(lambda b: dict(k='with', ref=dict(r='name', n='ho'),
+                                     mapping=False, only=False, body=b),
+                      inner),
+            st.builds(lambda b: dict(k='with', ref=dict(r='name', n='hm'),
+                                     mapping=True, only=False, body=b),
+                      inner),
+            st.builds(lambda b, o: dict(k='in', ref=dict(r='name', n='hs'),
+                                        opts=o, body=b, **{'else': None}),
+                      inner, st.sampled_from([
+                          [], [['sort', 'hk']], [['reverse', None]],
+                          [['size', '2'], ['orphan', '0']],
+                          [['sort', 'hk'], ['size', '2'], ['start', '2']],
+                          [['prefix', 'pq']], [['no_push_item', None]],
+                          [['sort_expr', "'hk'"]],
+                          [['size', '1'], ['next', None]],
+                          [['skip_unauthorized', None]]])),
+            st.builds(lambda b: dict(k='in', ref=dict(r='name', n='hi'),
+                                     opts=[], body=b, **{'else': b}), inner),
+            st.builds(lambda b: dict(k='in', ref=dict(r='name', n='hl'),
+                                     opts=[['mapping', None]], body=b,
+                                     **{'else': None}), inner),
+            st.builds(lambda b: dict(
+                k='in', ref=dict(r='expr', e=E('name', n='hs')), opts=[],
+                body=b + [vn('total-xn'), vn('mean-xn'),
+                          vn('sequence-length')], **{'else': None}), inner),
+            st.builds(lambda b: dict(
+                k='let', binds=[['la', dict(r='name', n='hv')],
+                                ['lb', dict(r='name', n='fa')],
+                                ['lc', dict(r='expr', e=E(
+                                    'attr', a=E('name', n='ho'), n='xo'))]],
+                body=b), inner),
+        ]
+        return st.one_of(menu)
+    if k == 'tree':
+        inner = st.lists(st.sampled_from([
+            dict(k='var', ref=dict(r='name', n='title'), opts=[]),
+            dict(k='var', ref=dict(r='name', n='tpId'), opts=[]),
+            dict(k='text', s='n'),
+            dict(k='var', ref=dict(r='name', n='fa'), opts=[]),
+            dict(k='var', ref=dict(r='name', n='tree-level'), opts=[]),
+        ]), max_size=3)
+        opts = st.sampled_from([
+            [], [['branches', 'kids']], [['branches_expr', 'kids()']],
+            [['branches_expr', 'fr()']], [['sort', 'nid']],
+            [['header', 'ta']], [['leaves', 'ta']], [['footer', 'tx']],
+            [['expand', 'ta']], [['reverse', None]],
+            [['branches_expr', 'kids()'], ['header', 'tx']],
+            [['assume_children', None]], [['single', None]],
+            [['skip_unauthorized', None]], [['nowrap', None]],
+            [['branches', 'kids'], ['leaves', 'tr']],
+        ])
+        return st.builds(lambda o, b: dict(
+            k='tree', ref=dict(r='name', n='tq'), opts=o, body=b),
+            opts, inner)
     if k == 'sub':
-        return st.sampled_from(['ta', 'ta', 'tr', 'tx']).map(
+        return st.sampled_from(['ta', 'ta', 'tr', 'tx', 'tn']
+                               if 'hook' in cfg.kinds else
+                               ['ta', 'ta', 'tr', 'tx']).map(
             lambda n: dict(k='var', ref=dict(r='name', n=n), opts=[]))
     raise ValueError(k)
 
